@@ -148,6 +148,20 @@ def block_for(rng, ty, btype, fault=0.0, nested_name=True):
     fs = []
     name = ""
     for f in type_fields(ty):
+        if f.get("emb") and exported(f["n"]) and f["t"]["k"] == "named" and rng.random() < 0.6:
+            # an embedded struct is reachable as a whole (nested block keyed by its type name) and through its
+            # promoted fields; both at once address overlapping storage
+            sub = NAMED[f["t"]["name"]]
+            how = rng.random()
+            if how < 0.7:
+                for g in sub:
+                    if rng.random() < 0.6:
+                        fs.append([spell(rng, g["n"]), rand_value(rng, g["t"])])
+            if how > 0.4:
+                child = block_for(rng, f["t"], spell(rng, f["n"]), 0.0, nested_name)
+                child["n"] = ""
+                fs.append([child["t"], child])
+            continue
         if not exported(f["n"]) or f.get("emb"):
             continue
         # a tagged field is reachable by its tag and (if no other field claims it) by its Go name as well
@@ -243,6 +257,14 @@ def check_C15(ctx):
         ("ptr", T(fld("Inner", dict(k="ptr", elem=dict(k="named", name="Inner")), emb=True)), "struct", [dict(t="a", n="", f=[["deep", "i5"]])]),
         ("ptr", dict(k="named", name="WithInner"), "struct", [dict(t="withinner", n="nm", f=[["low", "i5"], ["port", "i1"]])]),
         ("ptr", dict(k="named", name="WithInner"), "struct", [dict(t="with_inner", n="", f=[["inner", "i5"]])]),
+        ("ptr", T(fld("Inner", dict(k="named", name="Inner"), emb=True)), "struct",
+         [dict(t="a", n="", f=[["Deep", "i5"], ["inner", dict(t="inner", n="", f=[["deep", "i7"]])]])]),      # promoted key, then the block
+        ("ptr", T(fld("Inner", dict(k="named", name="Inner"), emb=True)), "struct",
+         [dict(t="a", n="", f=[["deep", "i5"], ["Inner", dict(t="Inner", n="", f=[["deep", "i7"]])]])]),      # block first, then the promoted key
+        ("ptr", T(fld("Inner", dict(k="named", name="Inner"), emb=True)), "struct",
+         [dict(t="a", n="", f=[["shared", "s78"], ["inner", dict(t="inner", n="", f=[["deep", "i7"]])]])]),   # different fields, same storage
+        ("ptr", T(fld("Inner", dict(k="named", name="Inner"), emb=True)), "struct",
+         [dict(t="a", n="", f=[["inner", dict(t="inner", n="", f=[["deep", "i7"], ["shared", "s78"]])]])]),
         ("ptr", T(fld("Xy", INT)), "struct", [dict(t="a", n="", f=[["x_y", "i1"], ["xy", "i2"]])]),
         ("ptr", T(fld("Xy", INT), fld("Z", STR)), "struct", [dict(t="a", n="", f=[["x_y", "s61"], ["z", "i2"]])]),
         ("ptr", T(fld("Foo_Bar", INT)), "struct", [dict(t="a", n="", f=[["foo_bar", "i1"]])]),
